@@ -104,7 +104,9 @@ def quirksOf (flags : List String) : CQuirks :=
     hslUnclamped := flags.contains "hslUnclamped",
     hwbUnclamped := flags.contains "hwbUnclamped",
     degModNegZero := flags.contains "degModNegZero",
-    hslaEqStructural := flags.contains "hslaEqStructural" }
+    hslaEqStructural := flags.contains "hslaEqStructural",
+    lightenUnclamped := flags.contains "lightenUnclamped",
+    grayscaleRgbFormat := flags.contains "grayscaleRgbFormat" }
 
 def tf (b : Bool) : String := if b then "t" else "f"
 
